@@ -22,6 +22,7 @@ func c15(c *Ctx) {
 		"discharged by a machine-checked side condition (dominating Kind()/len/>=0 guard, non-negative-by-construction size, comma-ok form, population " +
 		"conditions P1–P4/K/T over all registered types), accepted in triage.json with a reason, or reported."
 	r.NotDecided = []string{"total memory proportionality as a number", "that the depth bound is small enough for the stack (a number)", "nil dereferences other than the two kinds R15.N and the error-path rule of the census look at"}
+	c.errorsKept("R15.X", "the codec (packages tl and objects)", 8, inPkgs(load.TLPkg, load.ObjPkg))
 	r.Rule("R15.C", "every panic-capable operation reachable from Decode/DecodeUnknownObject is discharged, accepted with a reason, or a finding", 30)
 	var entries []*ssa.Function
 	for _, n := range []string{"Decode", "DecodeUnknownObject"} {
@@ -677,10 +678,13 @@ func (c *Ctx) noGlobalWrites(rule string, entries []*ssa.Function, where string)
 				locked = true
 			}
 		}
-		if w.What == "sync.Map write" && !strings.HasPrefix(rule, "R19") {
-			locked = true // synchronised by construction; only the secret generators must not keep state at all
+		// the secret generators and the key exchange must not keep process-wide state at all: a lock, a sync.Once
+		// or a sync.Map makes the write safe, not the second client's exchange independent of the first one's
+		strict := strings.HasPrefix(rule, "R19") || strings.HasPrefix(rule, "R07")
+		if w.What == "sync.Map write" && !strict {
+			locked = true // synchronised by construction
 		}
-		if locked {
+		if locked && !strict {
 			r.Hold(rule, sprintf("global-write:%s#%d", base, ord[base]), c.pos(w.Instr.Pos()), "package variable written inside an exclusive lock section (or a sync.Map)")
 			continue
 		}
